@@ -164,7 +164,7 @@ PROPS["C02"] = {
     "bounds_note": "every f64 bit pattern; n=m=2 for the vectors",
     "outside": "that a certificate is found; numerical size of A'z; membership of z in K*",
     "assumptions": PROPS["C01"]["assumptions"],
-    "harnesses": _pick(["c02_verdict_infeasible", "c03_solution_post_process", "c01_unscale", "c01_scale_invariance_m1"]),
+    "harnesses": _pick(["c02_verdict_infeasible", "c03_almost", "c03_solution_post_process", "c01_unscale", "c01_scale_invariance_m1"]),
 }
 PROPS["C03"] = {
     "feature": "c03",
@@ -346,9 +346,12 @@ PROPS["C13"] = {
 }
 _c15 = [
     ("c15_soc3_range", dict(nofloat=True, unit="SecondOrderCone::step_length -> _step_length_soc_component, _soc_residual", inst="f64 every bit pattern", bounds="dim 3, alpha_max in (0,1]", oracle="0 <= alpha <= alpha_max for z and s; panic unreachable", timeout=1800, mem_gb=20)),
-    ("c15_soc3_cases", dict(nofloat=True, unit="same", inst="f64 finite", bounds="dim 3", oracle="zero direction => alpha_max; alpha <= -x0/y0 when the scalar part decreases", timeout=1800, mem_gb=20)),
-    ("c15_nn2_exact", dict(nofloat=True, unit="NonnegativeCone::step_length", inst="f64 every bit pattern", bounds="dim 2, any alpha_max", oracle="alpha == min(alpha_max, min_{d<0} -z/d) bit for bit; <= alpha_max; >= 0 for interior points", timeout=1200)),
-    ("c15_nn3_exact", dict(nofloat=True, tier="thorough", unit="same", inst="f64", bounds="dim 3", oracle="same", timeout=2400)),
+    ("c15_soc3_cases", dict(nofloat=True, unit="SecondOrderCone::step_length", inst="f64 finite", bounds="dim 3", oracle="zero direction => alpha_max", timeout=1200, mem_gb=20)),
+    ("c15_soc3_scalar_part_pow2", dict(nofloat=True, unit="SecondOrderCone::step_length -> _step_length_soc_component", inst="f64: signed powers of two, exponents -30..30", bounds="dim 3, tail = 0", oracle="alpha <= -x0/y0 and alpha in {alpha_max, -x0/y0} (exact distance)", timeout=1800, mem_gb=20)),
+    ("c15_nn2_range", dict(nofloat=True, unit="NonnegativeCone::step_length", inst="f64 every bit pattern", bounds="dim 2, any alpha_max", oracle="<= alpha_max; >= 0 from an interior point", timeout=1200)),
+    ("c15_nn3_range", dict(nofloat=True, tier="thorough", unit="same", inst="f64", bounds="dim 3", oracle="same", timeout=2400)),
+    ("c15_nn2_exact_pow2", dict(nofloat=True, unit="NonnegativeCone::step_length", inst="f64: signed powers of two with symbolic exponents -40..40", bounds="dim 2", oracle="alpha == min(alpha_max, min_{d<0} -z/d) exactly; blocking coordinate lands on the boundary", timeout=1800)),
+    ("c15_nn3_exact_pow2", dict(nofloat=True, tier="thorough", unit="same", inst="same", bounds="dim 3", oracle="same", timeout=3000)),
     ("c15_zero_cone", dict(nofloat=True, unit="ZeroCone::step_length", inst="f64", bounds="dim 2", oracle="(alpha_max, alpha_max)")),
     ("c15_backtrack", dict(nofloat=True, unit="nonsymmetric_common::backtrack_search", inst="f64", bounds="arbitrary membership oracle (6 arbitrary answers), step 0.5, alpha_min = alpha_init/20", oracle="terminates; returns 0 or alpha_init*step^k; returned alpha accepted, all larger candidates rejected", timeout=1200)),
     ("c15_composite_nn_soc", dict(nofloat=True, stubs=True, unit="CompositeCone::step_length", inst="f64 every bit pattern", bounds="[NN2, SOC3]", oracle="common step, in [0,alpha_max], not longer than the NN part allows", timeout=2400, mem_gb=20)),
@@ -371,7 +374,7 @@ PROPS["C07"] = {
     "harnesses": _mk("c15", [
         ("c07_alpha_range", dict(nofloat=True, stubs=True, unit="DefaultVariables::calc_step_length (empty composite cone)", inst="f64", bounds="tau,kappa > 0 finite; any d_tau,d_kappa; max_step_fraction in (0,1]", oracle="0 <= alpha <= 1; alpha == 1 for an affine step when tau,kappa do not decrease", timeout=1800)),
         ("c07_budget_noninterference", dict(nofloat=True, unit="DefaultInfo::check_termination", inst="f64 every bit pattern", bounds="two settings differing only in max_iter, both != iterations", oracle="identical verdict and return value", timeout=900)),
-        ("c15_nn2_exact", dict(nofloat=True, unit="NonnegativeCone::step_length", inst="f64", bounds="dim 2", oracle="exact ratio test; nonnegative for interior points", timeout=1200)),
+        ("c15_nn2_range", dict(nofloat=True, unit="NonnegativeCone::step_length", inst="f64 every bit pattern", bounds="dim 2", oracle="<= alpha_max; nonnegative for interior points", timeout=1200)),
         ("c15_soc3_range", dict(nofloat=True, unit="SecondOrderCone::step_length", inst="f64", bounds="dim 3", oracle="step in [0, alpha_max]", timeout=1800, mem_gb=20)),
     ]),
 }
@@ -398,7 +401,7 @@ PROPS["C10"] = {
     "native_tests": ["tv_composite"],
     "feature": "c10",
     "bounds_note": "n=2, m=2..4, dense A, full-triu P, 1-2 Ruiz sweeps, arbitrary min/max scaling; GF(13) all values. f64 for 'disabled' and 'zero rows/cols'",
-    "outside": "that every cumulative factor stays within [min_scaling, max_scaling] (needs reasoning about rounded f64 products/quotients: not finished by the SAT back end); more than 2 sweeps; PSD cone; quality of the scaling",
+    "outside": "bounds of the cumulative factors for data that are not powers of two (rounded products of general mantissas); more than 2-3 sweeps; PSD cone; quality of the scaling",
     "assumptions": ["GF(13): order comparisons (max, clip) compare representatives; the asserted identity does not depend on them", "CompositeCone hook constructor; RandomState stub"],
     "harnesses": _mk("c10", [
         ("c10_exact_nn2_1sweep", dict(stubs=True, unit=_EQ_UNIT, inst="GF(13)", bounds="cones [NN2], 1 sweep", oracle=_EQ_OR, timeout=1800, mem_gb=20)),
@@ -407,6 +410,9 @@ PROPS["C10"] = {
         ("c10_exact_zero1_soc3_2sweeps", dict(stubs=True, tier="thorough", unit=_EQ_UNIT, inst="GF(13)", bounds="cones [Zero1,SOC3], 2 sweeps", oracle=_EQ_OR, timeout=3600, mem_gb=28)),
         ("c10_disabled", dict(stubs=True, nofloat=True, unit="DefaultProblemData::equilibrate", inst="f64 every bit pattern", bounds="n=m=2", oracle="equilibrate_enable=false: P,q,A,b bit-unchanged, identity scaling", timeout=1200)),
         ("c10_zero_rows_cols", dict(stubs=True, nofloat=True, unit="DefaultProblemData::equilibrate", inst="f64", bounds="n=m=2, empty column 1 of [P;A], empty row 1 of A, 2 sweeps", oracle="d[1] == e[1] == 1 exactly", timeout=1800, mem_gb=20)),
+        ("c10_bounds_pow2_2sweeps", dict(stubs=True, nofloat=True, unit=_EQ_UNIT, inst="f64: data entries are powers of two with symbolic exponent in [-40,40] (24 orders of magnitude), default bounds 1e-4 / 1e4", bounds="n=m=1, 2 Ruiz sweeps", timeout=3000, mem_gb=28,
+            oracle="cumulative d, e, c stay within [min_scaling, max_scaling] (8 ulp slack)")),
+        ("c10_bounds_pow2_3sweeps", dict(stubs=True, nofloat=True, tier="thorough", unit=_EQ_UNIT, inst="same", bounds="n=m=1, 3 sweeps", timeout=5400, mem_gb=32, oracle="same")),
         ("c10_rectify", dict(unit="rectify_equilibration of NonnegativeCone/ZeroCone/SecondOrderCone/ExponentialCone/PowerCone", inst="GF(13)", bounds="dim 3", oracle="scalar cones: delta=1,false; others: true and delta*e == mean(e) (constant)", timeout=1200)),
     ]),
 }
